@@ -267,6 +267,10 @@ def _case(repo, it, S, spec):
                 lt, a = True, a[1:]
             if b.startswith(">"):
                 gt, b = True, b[1:]
+            if not (a.isdigit() and b.isdigit()):
+                out.append(("feature table syntax", f"{desc}: interval {got['intervals']} of a {got['type']} row: only '<' before a start and '>' before an "
+                            f"end are allowed around the 1-based numbers", f"{W}:TblFeature._location_to_str"))
+                return 2, out
             rows.append((int(a), int(b)))
         q = dict(got["quals"])
         qn = {"gene": f"{W}:GeneTblFeature.__init__", "CDS": f"{W}:CDSTblFeature.__init__", "mRNA": f"{W}:MRNATblFeature.__init__"}.get(w["type"], f"{W}:TblFeature._location_to_str")
@@ -380,6 +384,8 @@ def _mixed_strand_case(repo, it, S, spec):
     gene_rows = [x for x in feats if x["type"] == "gene"]
     if gene_rows:
         a, b = gene_rows[0]["intervals"][0]
+        if not (a.lstrip("<>").isdigit() and b.lstrip("<>").isdigit()):
+            return 2, out + [("feature table syntax", f"{desc}: gene interval {(a, b)} is not a pair of numbers", f.qual)]
         got = "MINUS" if int(a.lstrip("<>")) > int(b.lstrip("<>")) else "PLUS"
         cnt = {sn: list(strands_).count(sn) for sn in set(strands_)}
         best = max(cnt.values())
